@@ -38,7 +38,7 @@ Next == idx < Len(Recs) /\ idx' = idx + 1
 Spec == Init /\ [][Next]_idx
 
 ClauseNames == {"C12_PathFixed", "C12_OneUsername", "C12_UsernameDecodesToName", "C12_OneServerId", "C12_ServerIdIsHash",
-                "C12_NoOtherParams", "C12_ErrorOnBadReply", "C11_RequestCarriesSignedHex", "Note_HashIsSignedHex", "Note_ProfileFromReply"}
+                "C12_NoOtherParams", "C12_ErrorOnBadReply", "C11_RequestCarriesSignedHex", "C01_IdentityOnlyFromReply", "Note_HashIsSignedHex", "Note_ProfileFromReply"}
 
 IsBytes(s) == \A i \in 1..Len(s) : s[i] \in 0..255
 WellFormed(r) == /\ r.line = idx /\ r.harness_error = ""
@@ -62,6 +62,10 @@ Clause(cl, r, ps) ==
          [] cl = "C12_ErrorOnBadReply"       -> (r.vec.script # "ok" \/ Len(ps) = 0) => r.result = "err"
          \* C11: the hash that is actually sent to the session service is Minecraft's signed hex of SHA-1(configured server id, secret, key)
          [] cl = "C11_RequestCarriesSignedHex" -> Each(SidMc)
+         \* C01 at the adapter: an identity is reported as vouched for only if the service's answer carried exactly that identity
+         \* (an answer without a profile -- an error object, an object without id or name -- vouches for nobody)
+         [] cl = "C01_IdentityOnlyFromReply" -> r.result = "ok" => /\ r.vec.script \in {"ok", "500profile", "300profile"}
+                                                                   /\ r.profile.id = r.vec.reply_id /\ r.profile.name = r.vec.reply_name
          [] cl = "Note_HashIsSignedHex"      -> r.hash = H!SignedHex(r.vec.digest)
          [] cl = "Note_ProfileFromReply"     -> (r.vec.script = "ok" /\ Len(ps) >= 1)
                                                    => (r.result = "ok" /\ r.profile.id = r.vec.reply_id /\ r.profile.name = r.vec.reply_name)
